@@ -229,11 +229,11 @@ mod verif_kani {
     shape_one!(c18_shape_30_t, SHAPES, 30);
     shape_one!(c18_shape_31_t, SHAPES, 31);
     shape_one!(c18_shape_32_t, SHAPES, 32);
-    shape_one!(c18_shape_33_t, SHAPES, 33);
+    shape_one!(c18_shape_33, SHAPES, 33);
     shape_one!(c18_shape_34_t, SHAPES, 34);
     shape_one!(c18_shape_35_t, SHAPES, 35);
     shape_one!(c18_shape_36_t, SHAPES, 36);
-    shape_one!(c18_shape_37_t, SHAPES, 37);
+    shape_one!(c18_shape_37, SHAPES, 37);
     shape_one!(c18_shape_38_t, SHAPES, 38);
     shape_one!(c18_shape_39_t, SHAPES, 39);
     shape_one!(c18_shape_40_t, SHAPES, 40);
